@@ -104,6 +104,12 @@ def _plan(draw, max_len):
         args["q"] = draw(st.sampled_from([0, 0.1, 0.25, 0.5, 0.9, 1]))
     if h in ("std", "var") and draw(st.booleans()):
         args["ddof"] = draw(st.sampled_from([0, 1]))
+    if h in ("std", "var") and kind == "f" and args.get("drop_na") is not False and draw(st.integers(0, 3)) == 0:
+        # dropped NaN next to two or more values in a group, with a chosen ddof: the divisor counts the values that are left
+        n = draw(st.integers(4, 9))
+        vals = [draw(st.sampled_from([gen.NAN, 5.0, 13.0, 7.0, 1.0, 9.5, gen.NAN, 2.0])) for _ in range(n)]
+        groups = [draw(st.integers(0, 1)) for _ in range(n)]
+        args["ddof"] = draw(st.sampled_from([0, 1, 1]))
     # further helpers on the same column as later summaries of the same aggregate call
     extra = draw(st.lists(st.sampled_from(["first", "last", "nth1", "count", "min", "max"]), max_size=2, unique=True))
     plan = {"kind": kind, "helper": h, "vals": vals, "groups": groups, "args": args, "extra": extra}
